@@ -321,11 +321,11 @@ def run_c32(run):
     ALL = ["frag", "trunc", "merge", "defrag"]
     if quick:
         scopes = [("4 boundaries, <=2 spans x 1 key (seq 1..2, 2 suffixes), 2 levels, all ops", sp_consts(4, 2, 2, 1, 2, ALL)),
-                  ("5 boundaries, <=3 spans x 1 key (seq 1..3), frag/merge 2 levels", sp_consts(5, 3, 3, 1, 2, ["frag", "merge"]))]
+                  ("4 boundaries, <=3 spans x 1 key (seq 1..3), frag/merge 2 levels", sp_consts(4, 3, 3, 1, 2, ["frag", "merge"]))]
         nrandom = 6000
     else:
-        scopes = [("5 boundaries, <=3 spans x <=2 keys (seq 1..4, 2 suffixes), 2 levels, all ops", sp_consts(5, 4, 3, 2, 2, ALL)),
-                  ("5 boundaries, <=4 spans x 1 key (seq 1..4), frag/merge 3 levels", sp_consts(5, 4, 4, 1, 3, ["frag", "merge"]))]
+        scopes = [("5 boundaries, <=3 spans x 1 key (seq 1..3, 2 suffixes), 2 levels, all ops", sp_consts(5, 3, 3, 1, 2, ALL)),
+                  ("4 boundaries, <=2 spans x <=2 keys (seq 1..4, 2 suffixes), 2 levels, all ops", sp_consts(4, 4, 2, 2, 2, ALL))]
         nrandom = 150000
     tdir = vlib.scratch("verif.c32.")
     total_acc = total_vac = total_rej = 0
